@@ -62,6 +62,9 @@ type Frame struct {
 	curBlock      *ssa.BasicBlock
 	curIdx        int
 	virtOrd       map[token.Pos]int // ordinal of maps.Iterate virtual loops by call position
+	inlOrd        map[token.Pos]int // for calls of helpers executed in place: the ordinals their loops take start after this number
+	inlineAt      token.Pos         // position of the call about to be executed in place
+	flatOwner     *Frame            // for a helper executed in place: the frame whose contract numbers (and owns) its loops
 	params        []Val
 	parent        *Frame
 	loopOv        *loopOverride
@@ -86,7 +89,7 @@ type retInfo struct {
 func (vc *VC) newFrame(fn *ssa.Function, parent *Frame) *Frame {
 	fr := &Frame{vc: vc, fn: fn, key: FuncKey(fn), env: map[ssa.Value]Val{}, loops: map[*ssa.BasicBlock]*loopInfo{},
 		back: map[[2]*ssa.BasicBlock]bool{}, in: map[*ssa.BasicBlock][]edgeIn{}, blockCond: map[*ssa.BasicBlock]string{},
-		mutated: map[ssa.Value]bool{}, virtOrd: map[token.Pos]int{}}
+		mutated: map[ssa.Value]bool{}, virtOrd: map[token.Pos]int{}, inlOrd: map[token.Pos]int{}}
 	fr.spec = vc.W.SpecFor(fn)
 	if fr.spec != nil {
 		fr.props = fr.spec.Props
@@ -113,6 +116,7 @@ func (fr *Frame) analyse() {
 		idx  int // instruction index inside the block
 		head *ssa.BasicBlock
 		call token.Pos
+		inl  int // > 0: a call of a helper executed in place whose body has this many loop sites
 	}
 	var sites []loopSite
 	for _, b := range fn.Blocks {
@@ -144,6 +148,8 @@ func (fr *Frame) analyse() {
 			case *ssa.Call:
 				if isMapsIterate(in.Call.StaticCallee()) {
 					sites = append(sites, loopSite{blk: b.Index, idx: instrIndex(b, in), call: in.Pos()})
+				} else if n := fr.vc.W.loopSlots(in.Call.StaticCallee(), 0); n > 0 {
+					sites = append(sites, loopSite{blk: b.Index, idx: instrIndex(b, in), call: in.Pos(), inl: n})
 				}
 				if bi, ok := in.Call.Value.(*ssa.Builtin); ok && bi.Name() == "copy" {
 					fr.mutated[in.Call.Args[0]] = true
@@ -198,16 +204,52 @@ func (fr *Frame) analyse() {
 		}
 		return sites[i].idx < sites[j].idx
 	})
-	for i, s := range sites {
-		if s.head != nil {
-			fr.loops[s.head].ordinal = i + 1
+	// loops are numbered in source order; the loops of a helper that is executed in place take their numbers at the
+	// place of the call (moving a loop into a helper, verbatim, keeps every loop's number and the names of its obligations)
+	n := 0
+	for _, s := range sites {
+		switch {
+		case s.head != nil:
+			n++
+			fr.loops[s.head].ordinal = n
 			if fr.spec != nil {
-				fr.loops[s.head].spec = fr.spec.Loops[i+1]
+				fr.loops[s.head].spec = fr.spec.Loops[n]
 			}
-		} else {
-			fr.virtOrd[s.call] = i + 1
+		case s.inl > 0:
+			fr.inlOrd[s.call] = n
+			n += s.inl
+		default:
+			n++
+			fr.virtOrd[s.call] = n
 		}
 	}
+}
+
+// rebase makes the loops of a helper that is executed in place part of the numbering of the frame that owns the contract:
+// their ordinals continue after base, their invariants come from the owner's contract, their obligations carry its name.
+func (fr *Frame) rebase(base int, owner *Frame) {
+	fr.flatOwner = owner
+	for _, li := range fr.loops {
+		li.ordinal += base
+		li.ownerKey = owner.key
+		if owner.spec != nil {
+			li.spec = owner.spec.Loops[li.ordinal]
+		}
+	}
+	for p := range fr.virtOrd {
+		fr.virtOrd[p] += base
+	}
+	for p := range fr.inlOrd {
+		fr.inlOrd[p] += base
+	}
+}
+
+// loopOwnerFrame: the frame whose contract supplies the invariants of this frame's loops.
+func (fr *Frame) loopOwnerFrame() *Frame {
+	if fr.flatOwner != nil {
+		return fr.flatOwner
+	}
+	return fr
 }
 
 func (fr *Frame) markMutated(addr ssa.Value) {
